@@ -68,3 +68,6 @@ def run(ctx):
                 ctx.sample(json.loads(line), limit=6)
     ctx.assumptions += ["allocations made by the harness itself while decoding/building packets with the library's codec are not "
                         "counted or failed", "ledger = counting allocator installed with ares_library_init_mem; ASan/UBSan observe memory errors"]
+    # the legacy reply parsers (ares_parse_*_reply) under the same quantifier: specs/Legacy, harness/legacy
+    import legacy_oom
+    legacy_oom.run_legacy_oom(ctx)
